@@ -1864,7 +1864,16 @@ EGLPNUM_TYPENAME_QSLIB_INTERFACE int EGLPNUM_TYPENAME_QSread_and_load_basis (
 {
 	int rval = 0;
 
+	EGLPNUM_TYPENAME_ILLlp_basis newB;
+
+	EGLPNUM_TYPENAME_ILLlp_basis_init (&newB);
+
 	rval = check_qsdata_pointer (p);
+	CHECKRVALG (rval, CLEANUP);
+
+	/* read into a temporary: a missing or malformed file must leave the
+	 * current basis alone */
+	rval = EGLPNUM_TYPENAME_ILLlib_readbasis (p->lp, &newB, filename);
 	CHECKRVALG (rval, CLEANUP);
 
 	if (p->basis == 0)
@@ -1876,12 +1885,13 @@ EGLPNUM_TYPENAME_QSLIB_INTERFACE int EGLPNUM_TYPENAME_QSread_and_load_basis (
 	{
 		EGLPNUM_TYPENAME_ILLlp_basis_free (p->basis);
 	}
-
-	rval = EGLPNUM_TYPENAME_ILLlib_readbasis (p->lp, p->basis, filename);
-	CHECKRVALG (rval, CLEANUP);
+	*(p->basis) = newB;
+	EGLPNUM_TYPENAME_ILLlp_basis_init (&newB);
+	p->factorok = 0;
 
 CLEANUP:
 
+	EGLPNUM_TYPENAME_ILLlp_basis_free (&newB);
 	return rval;
 }
 
